@@ -175,6 +175,7 @@ def run_case(spec):
             w = W()
             w.est = C()
             w.model = {p: d for p, d in ctor_params(name)}
+            w.unpickled = False
             return w
 
         def apply(w, ev):
@@ -185,14 +186,19 @@ def run_case(spec):
                     return {'identity': w.est.get_params()[ev[1]] is ev[2]}
                 if ev[0] == 'clone':
                     w.est = clone(w.est)
+                    w.unpickled = False
                 else:
                     w.est = pickle.loads(pickle.dumps(w.est))
+                    w.unpickled = True
             except Exception as e:
                 return {'exc': e}
             return {}
 
         def dig(w):
-            return digest(w.est.get_params(), type(w.est).__name__)
+            # parameter VALUES, plus whether the object came out of pickle since it was last (re)constructed: unpickled
+            # parameters are equal but not identical to the constructor's literals, and clone compares by identity - merging
+            # the two states hid 'pickle -> clone raises' in the first version of this search
+            return digest(w.est.get_params(), type(w.est).__name__, w.unpickled)
 
         def inv(w, ev, out, hist, before):
             v = []
